@@ -86,7 +86,7 @@ func UnmarshalValue(ctx Ctx, target reflect.Value, cont Sink) Sink {
 					token.Value = b
 
 				case reflect.Int, reflect.Int8, reflect.Int16, reflect.Int32, reflect.Int64:
-					i, err := strconv.ParseInt(token.Value.(string), 10, 64)
+					i, err := strconv.ParseInt(token.Value.(string), 10, targetType.Elem().Bits())
 					if err != nil {
 						return nil, we.With(UnmarshalError)(err)
 					}
@@ -109,7 +109,7 @@ func UnmarshalValue(ctx Ctx, target reflect.Value, cont Sink) Sink {
 					}
 
 				case reflect.Uint, reflect.Uint8, reflect.Uint16, reflect.Uint32, reflect.Uint64, reflect.Uintptr:
-					u, err := strconv.ParseUint(token.Value.(string), 10, 64)
+					u, err := strconv.ParseUint(token.Value.(string), 10, targetType.Elem().Bits())
 					if err != nil {
 						return nil, we.With(UnmarshalError)(err)
 					}
